@@ -100,6 +100,7 @@ func (f *FragmentBuffer) pushHandshakeFragments(
 	recordLayerHeader recordlayer.Header,
 	buf []byte,
 ) (isHandshake, isRetransmit bool, err error) {
+	storedNew, sawDuplicate := false, false
 	for len(buf) != 0 {
 		frag := new(fragment)
 		if err := frag.handshakeHeader.Unmarshal(buf); err != nil {
@@ -144,8 +145,16 @@ func (f *FragmentBuffer) pushHandshakeFragments(
 			messageFragments.fragmentsLength += frag.handshakeHeader.FragmentLength
 			f.totalBufferSize += int(frag.handshakeHeader.FragmentLength)
 			f.totalFragmentCount++
+			storedNew = true
+		} else {
+			sawDuplicate = true
 		}
 		buf = buf[end:]
+	}
+	if sawDuplicate && !storedNew {
+		// a record that only repeats fragments which are already buffered is a
+		// retransmission of a partially received message, not new data.
+		isRetransmit = true
 	}
 
 	return true, isRetransmit, nil
